@@ -523,13 +523,13 @@ pub fn c27(s: &mut Session) -> Meta {
   let t = s.tier();
   s.run_part(Part::new(
     "roundtrip",
-    t.pick(20_000, 1_000_000),
+    t.pick(200_000, 1_000_000),
     envelope_strategy,
     envelope_check,
   ));
   s.run_part(Part::new(
     "totality",
-    t.pick(60_000, 4_000_000),
+    t.pick(800_000, 4_000_000),
     witness_strategy,
     witness_check,
   ));
